@@ -775,7 +775,8 @@ func rulesC03(r *Run) {
 	} else {
 		r.Check("R1", "recheck-after-join", bpos, bad == "", "%s", orOK(bad, "every path to BlockPostChecks re-tests the threshold after Group.Wait"))
 	}
-	r.Expect("R1", 6)
+	ruleToleranceComparisonsGuarded(r, "R1")
+	r.Expect("R1", 8)
 
 	// ---- R2: counting
 	r.Kind("R2", "K2")
@@ -1235,4 +1236,135 @@ func ruleSharedEngineStateImmutable(r *Run, rule string) {
 		return
 	}
 	r.Check(rule, "shared-engine-state-immutable", 0, true, "no function of sm/actions other than a constructor assigns a field of sm.States or actions.Runner (%d functions inspected)", n)
+}
+
+// ruleToleranceComparisonsGuarded (round-4 seed C10-8): wherever the package compares a count of failed sequences with a block's
+// ToleratedFailures — ExecuteSequences, but also recovery, which has to reach the verdict an uninterrupted run would have
+// reached — the comparison means "more failed than tolerated" (count > tolerated) and is guarded by `tolerated >= 0`: a
+// negative value allows every failure, and `count > -1` is true for every count. One obligation per comparison.
+func ruleToleranceComparisonsGuarded(r *Run, rule string) {
+	pkg := r.P.Pkgs[pkgSM]
+	if pkg == nil {
+		r.Unresolved(rule, "package sm")
+		return
+	}
+	info := pkg.TypesInfo
+	isTol := func(e ast.Expr) bool {
+		e = ast.Unparen(e)
+		for {
+			c, ok := e.(*ast.CallExpr)
+			if !ok || len(c.Args) != 1 {
+				break
+			}
+			if tv, ok := info.Types[c.Fun]; !ok || !tv.IsType() {
+				break
+			}
+			e = ast.Unparen(c.Args[0]) // a conversion
+		}
+		_, m := FieldPath(info, e, "workflow.Block", "ToleratedFailures")
+		return m
+	}
+	isConst := func(e ast.Expr) bool {
+		tv, ok := info.Types[e]
+		return ok && tv.Value != nil
+	}
+	// tol >= 0 in any spelling
+	isNonNegTest := func(e ast.Expr) bool {
+		be, ok := ast.Unparen(e).(*ast.BinaryExpr)
+		if !ok {
+			return false
+		}
+		cv := func(x ast.Expr) (int64, bool) { return ConstInt(info, x) }
+		switch {
+		case isTol(be.X):
+			v, ok := cv(be.Y)
+			return ok && ((be.Op == token.GEQ && v == 0) || (be.Op == token.GTR && v == -1) || (be.Op == token.NEQ && v == -1))
+		case isTol(be.Y):
+			v, ok := cv(be.X)
+			return ok && ((be.Op == token.LEQ && v == 0) || (be.Op == token.LSS && v == -1) || (be.Op == token.NEQ && v == -1))
+		}
+		return false
+	}
+	n := 0
+	for _, f := range pkg.Syntax {
+		if strings.HasSuffix(r.P.Fset.Position(f.Pos()).Filename, "_test.go") {
+			continue
+		}
+		var stack []ast.Node
+		ast.Inspect(f, func(x ast.Node) bool {
+			if x == nil {
+				stack = stack[:len(stack)-1]
+				return true
+			}
+			stack = append(stack, x)
+			be, ok := x.(*ast.BinaryExpr)
+			if !ok {
+				return true
+			}
+			switch be.Op {
+			case token.GTR, token.GEQ, token.LSS, token.LEQ:
+			default:
+				return true
+			}
+			var other ast.Expr
+			tolRight := false
+			switch {
+			case isTol(be.Y):
+				other, tolRight = be.X, true
+			case isTol(be.X):
+				other = be.Y
+			default:
+				return true
+			}
+			if isConst(other) {
+				return true // the guard itself
+			}
+			n++
+			shape := (tolRight && be.Op == token.GTR) || (!tolRight && be.Op == token.LSS)
+			guarded := false
+			for k := len(stack) - 2; k >= 0 && !guarded; k-- {
+				switch a := stack[k].(type) {
+				case *ast.BinaryExpr:
+					if a.Op == token.LAND {
+						for _, side := range []ast.Expr{a.X, a.Y} {
+							ast.Inspect(side, func(y ast.Node) bool {
+								if e, ok := y.(ast.Expr); ok && isNonNegTest(e) {
+									guarded = true
+								}
+								return !guarded
+							})
+						}
+					}
+				case *ast.IfStmt:
+					ast.Inspect(a.Cond, func(y ast.Node) bool {
+						if e, ok := y.(ast.Expr); ok && isNonNegTest(e) && !containsNode(a.Else, be) {
+							guarded = true
+						}
+						return !guarded
+					})
+				case *ast.FuncDecl, *ast.FuncLit:
+					k = -1
+				}
+			}
+			fnName := ""
+			for k := len(stack) - 1; k >= 0; k-- {
+				if fd, ok := stack[k].(*ast.FuncDecl); ok {
+					fnName = fd.Name.Name
+					break
+				}
+			}
+			msg := ""
+			switch {
+			case !shape:
+				msg = "the comparison is `" + ExprStr(be) + "`: the tolerance is exceeded exactly when more sequences failed than tolerated (count > ToleratedFailures)"
+			case !guarded:
+				msg = "`" + ExprStr(be) + "` is not guarded by ToleratedFailures >= 0: a negative tolerance allows every failure, but count > -1 holds for every count — the block is failed although nothing exceeded its tolerance"
+			}
+			r.Check(rule, "tolerance-comparison:"+fnName+":"+ExprStr(other), be.Pos(), msg == "", "%s", orOK(msg, "count > tolerated, guarded by tolerated >= 0"))
+			return true
+		})
+	}
+	if n == 0 {
+		r.Unresolved(rule, "comparisons with Block.ToleratedFailures in package sm")
+	}
 }
